@@ -197,28 +197,37 @@ func VerifC20Cache() {
 				}
 			}
 			none := !want[0] && !want[1] && !want[2]
-			before := b.calls
-			res, err := vAsk(c, typ, ep, idx)
-			vrt.Assert("request succeeds", err == nil)
-			// oracle: the beacon node's own answer for this request
-			expected := 0
-			for v := 0; v < vVals; v++ {
-				for j := 0; j < 1; j++ {
-					if (want[v] || none) && b.present[b.gen][eIdx][v][j] {
-						expected++
-						found := false
-						for x := 0; x < len(res.val); x++ {
-							if res.val[x] == uint64(v) && res.tag[x] == b.tag[b.gen][eIdx][v][j] {
-								found = true
+			// "mix": every request is made for all three duty types (cross-type interference, e.g. invalidation)
+			types := []int{typ}
+			if vrt.Param("mix") == 1 {
+				types = []int{0, 1, 2}
+			}
+			var res vRes
+			for _, ty := range types {
+				before := b.calls
+				var err error
+				res, err = vAsk(c, ty, ep, idx)
+				vrt.Assert("request succeeds", err == nil)
+				// oracle: the beacon node's own answer for this request
+				expected := 0
+				for v := 0; v < vVals; v++ {
+					for j := 0; j < 1; j++ {
+						if (want[v] || none) && b.present[b.gen][eIdx][v][j] {
+							expected++
+							found := false
+							for x := 0; x < len(res.val); x++ {
+								if res.val[x] == uint64(v) && res.tag[x] == b.tag[b.gen][eIdx][v][j] {
+									found = true
+								}
 							}
+							vrt.Assert("every duty the beacon node assigns to a requested validator is returned", found)
 						}
-						vrt.Assert("every duty the beacon node assigns to a requested validator is returned", found)
 					}
 				}
-			}
-			vrt.Assert("no duty is returned twice and none for a validator or epoch that was not requested", len(res.val) == expected)
-			if b.calls != before {
-				vrt.Assert("a cache miss asks the beacon node for the requested epoch", b.lastEp == ep)
+				vrt.Assert("no duty is returned twice and none for a validator or epoch that was not requested", len(res.val) == expected)
+				if b.calls != before {
+					vrt.Assert("a cache miss asks the beacon node for the requested epoch", b.lastEp == ep)
+				}
 			}
 			// private copies: nothing returned now shares memory with what an earlier request returned
 			for x := 0; x < len(res.ptr); x++ {
